@@ -204,7 +204,10 @@ def check(ctx):
     # maintainer record helper payload
     if P.has_cls('Maintainer'):
         M = P.cls('Maintainer')
-        fn = P.method(M, '_record_work_order_datapoint')[1]
+        RH = dv.record_helper(P, M)
+        if RH is None:
+            raise AnalysisError('Maintainer: the helper that records work-order datapoints was not found')
+        fn = P.method(M, RH[0])[1]
         o.count()
         cls_ = [x for x in ast.walk(fn) if isinstance(x, ast.Call) and call_attr(x) == 'add_datapoint']
         params = [a.arg for a in fn.args.args][1:]
@@ -216,7 +219,7 @@ def check(ctx):
             okm = ast.unparse(cls_[0].args[0]) == params[0] and els[1:] == [f'{params[1]}.tag', f'{params[1]}.info'] and nm is not None \
                 and ast.unparse(nm).startswith(f"getattr({params[1]}.target, 'name'")
         if not okm:
-            o.fail(P, 'Maintainer._record_work_order_datapoint', '(now, target name, tag, info)', 'a work-order record must carry (time, target name, tag, info) under the given label', file=M.mod.path, line=fn.lineno)
+            o.fail(P, f'Maintainer.{RH[0]}', '(now, target name, tag, info)', 'a work-order record must carry (time, target name, tag, info) under the given label', file=M.mod.path, line=fn.lineno)
         else:
             o.witness('work-order-payload')
     # device_failure payload checked by C13.2; add_datapoint itself:
